@@ -18,7 +18,9 @@ PROP = "C08"
 
 def validate(ctx, cases, tags, label, prop=PROP, keyfn=None, with_c=False, grouped=False):
     """cases -> TLC verdict; returns number of violating (case, record) pairs"""
-    path = os.path.join(common.scratch("sel"), f"cases_{label}.json")
+    import re as _re
+
+    path = os.path.join(common.scratch("sel"), "cases_" + _re.sub(r"[^A-Za-z0-9]+", "_", label)[:60] + ".json")
     envs = sg.envs(with_c, grouped)
     tlc.write_json(path, {"recs": envs, "cases": cases})
     r = ctx.tlc("Trace_Selector", "Trace_Selector.cfg", f"{label}: {len(cases)} expressions x {len(envs)} records x 2 engines", env={"TRACE_FILE": path})
@@ -42,6 +44,33 @@ def validate(ctx, cases, tags, label, prop=PROP, keyfn=None, with_c=False, group
         ctx.violation(key, {"expression": c["src"], "record": rid, "observed": c[eng][rid - 1], "cpython": c["py"][rid - 1]})
     ctx.count(len(cases) * len(envs), len(cases) * len(envs) * 2)
     return len(seen)
+
+
+def reversed_order_cases(arg):
+    """In a NEW interpreter the records are met in REVERSE order (the grouped record and the record with the extra field
+    first): whatever a process-wide cache keyed by type name remembers, it now remembers the other descriptor.
+    arg = {"grammar": "c08" | "c07", "seed": n}.  -> cases in the usual shape (per-record results in record order)."""
+    import random
+
+    frecs, D = sg.real_records(with_c=True, grouped=True)
+    plain = [{k: sg.val(v) for k, v in r.items()} for r in sg.RECS] + [dict({k: sg.val(v) for k, v in sg.RECS[0].items()}, q="a")]
+    if arg["grammar"] == "c08":
+        ex = [(e, t) for e, t in sg.c08_exprs() if t.get("ctx") in ("bare", "not") or t.get("pos") == "helper"]
+    else:
+        allx, _ = sg.c07_exprs(random.Random(arg["seed"]), 12000)
+        ex = [(e, t) for e, t in allx if t["group"] in ("typed", "helper", "ip_path", "typed_chain", "kinds", "gen_named")]
+    order = list(range(len(frecs) - 1, -1, -1))
+    out = []
+    for e, t in ex:
+        c = sg.make_case(e, [frecs[i] for i in order], [plain[i] for i in order])
+        for key in ("py", "I", "C"):
+            back = [None] * len(order)
+            for pos, i in enumerate(order):
+                back[i] = c[key][pos]
+            c[key] = back
+        c["tag"] = t
+        out.append(c)
+    return out
 
 
 def stream_half(ctx):
@@ -108,6 +137,12 @@ def run(tier):
     for c in cases:
         ctx.case(c["src"])
     validate(ctx, cases, tags, "C08 grammar", keyfn=lambda key, c, rid, eng: dict(key, record_has_field_m=(rid == 4), observed=c[eng][rid - 1]["k"] + (":" + c[eng][rid - 1].get("c", "") if c[eng][rid - 1]["k"] == "exc" else "")), with_c=True, grouped=True)
+    # the same comparisons in a fresh interpreter that meets the records in reverse order
+    rc = common.in_fresh_process("c08", "reversed_order_cases", {"grammar": "c08", "seed": ctx.seed})
+    for c in rc:
+        ctx.case("reversed:" + c["src"])
+    validate(ctx, rc, [dict(c.pop("tag"), order="reversed") for c in rc], "C08 grammar, records met in reverse order by a fresh interpreter",
+             keyfn=lambda key, c, rid, eng: dict(key, record_has_field_m=(rid == 4), observed=c[eng][rid - 1]["k"] + (":" + c[eng][rid - 1].get("c", "") if c[eng][rid - 1]["k"] == "exc" else "")), with_c=True, grouped=True)
     stream_half(ctx)
     keep = [i for i, (e, t) in enumerate(ex) if not any(x["k"] == "field" and x["f"] == "c" for x in sg.walk(e))]   # the stream files carry no command field
     streamfilter.run(ctx, [ex[i] for i in keep], [cases[i] for i in keep], [tags[i] for i in keep], PROP, tier == "thorough")
